@@ -67,21 +67,23 @@ type item struct {
 }
 
 type Obl struct {
-	Name    string
-	Kind    string
-	Props   []string
-	Fn      string
-	Guard   string
-	Cond    string
-	Prefix  int // number of items visible
-	NDecl   int
-	Pos     token.Position
-	Note    string
-	Result  string // unsat / sat / unknown / timeout
-	Backend string
-	Secs    float64
-	Model   string
-	Cover   bool // reachability cover query: expected SAT
+	Name           string
+	Kind           string
+	Props          []string
+	Fn             string
+	Guard          string
+	Cond           string
+	Prefix         int // number of items visible
+	NDecl          int
+	Pos            token.Position
+	Note           string
+	Result         string // unsat / sat / unknown / timeout
+	Backend        string
+	Secs           float64
+	Model          string
+	Cover          bool // reachability cover query: expected SAT
+	Relaxed        string
+	RelaxedBackend string
 }
 
 type Enc struct {
@@ -92,6 +94,7 @@ type Enc struct {
 	obls      []*Obl
 	n         int
 	heapSort  map[string]string
+	heapType  map[string]types.Type
 	notes     map[string]bool // assumptions made during encoding
 	strLits   map[string]string
 	fnName    string
@@ -102,7 +105,7 @@ type Enc struct {
 }
 
 func newEnc(p *Program, fn string) *Enc {
-	return &Enc{P: p, declared: map[string]bool{}, heapSort: map[string]string{}, notes: map[string]bool{}, strLits: map[string]string{}, fnName: fn, oblNames: map[string]int{}}
+	return &Enc{P: p, declared: map[string]bool{}, heapSort: map[string]string{}, heapType: map[string]types.Type{}, notes: map[string]bool{}, strLits: map[string]string{}, fnName: fn, oblNames: map[string]int{}}
 }
 
 func (e *Enc) fresh(prefix, sort string) string {
@@ -182,8 +185,41 @@ func (e *Enc) cover(name string, props []string, guard string) {
 func (e *Enc) heapInit(name, sort string) string {
 	e.heapSort[name] = sort
 	c := "H0_" + name
-	e.decl(c, sort)
+	if !e.declared[c] {
+		e.decl(c, sort)
+		e.heapWf(name, c, "alloc0")
+	}
 	return c
+}
+
+// freshHeap introduces an unconstrained heap value (havoc) with its typing invariant.
+func (e *Enc) freshHeap(prefix, name, sort, alloc string) string {
+	c := e.fresh(prefix+name, sort)
+	e.heapWf(name, c, alloc)
+	return c
+}
+
+// heapWf asserts the typing invariant of a heap value: stored integers are in range, stored references
+// (pointers, slices, interfaces) were allocated no later than alloc.
+func (e *Enc) heapWf(name, term, alloc string) {
+	t, ok := e.heapType[name]
+	if !ok || t == nil {
+		return
+	}
+	nested := strings.HasPrefix(name, "H_")
+	if nested {
+		c := e.wfVal(fmt.Sprintf("(select (select %s r) k)", term), t, alloc)
+		if c != "" && c != "true" {
+			e.assert(fmt.Sprintf("(forall ((r Int) (k Int)) (! %s :pattern ((select (select %s r) k))))", c, term))
+		}
+		return
+	}
+	if strings.HasPrefix(name, "F_") || strings.HasPrefix(name, "C_") {
+		c := e.wfVal(fmt.Sprintf("(select %s r)", term), t, alloc)
+		if c != "" && c != "true" {
+			e.assert(fmt.Sprintf("(forall ((r Int)) (! %s :pattern ((select %s r))))", c, term))
+		}
+	}
 }
 
 func (e *Enc) getHeap(st *State, name, sort string) string {
@@ -201,15 +237,21 @@ func (e *Enc) setHeap(st *State, name, sort, term string) {
 func (e *Enc) tt() *TypeTable { return e.P.TT }
 
 func (e *Enc) fieldHeap(structName string, f int, ft types.Type) (string, string) {
-	return fmt.Sprintf("F_%s_%d", structName, f), "(Array Int " + e.tt().sortOf(ft) + ")"
+	n := fmt.Sprintf("F_%s_%d", structName, f)
+	e.heapType[n] = ft
+	return n, "(Array Int " + e.tt().sortOf(ft) + ")"
 }
 
 func (e *Enc) elemHeap(elem types.Type) (string, string) {
-	return "H_" + sanitize(e.tt().typeString(elem)), "(Array Int (Array Int " + e.tt().sortOf(elem) + "))"
+	n := "H_" + sanitize(e.tt().typeString(elem))
+	e.heapType[n] = elem
+	return n, "(Array Int (Array Int " + e.tt().sortOf(elem) + "))"
 }
 
 func (e *Enc) cellHeap(t types.Type) (string, string) {
-	return "C_" + sanitize(e.tt().typeString(t)), "(Array Int " + e.tt().sortOf(t) + ")"
+	n := "C_" + sanitize(e.tt().typeString(t))
+	e.heapType[n] = t
+	return n, "(Array Int " + e.tt().sortOf(t) + ")"
 }
 
 func isStruct(t types.Type) (*types.Struct, bool) {
